@@ -81,7 +81,7 @@ def ref_indices(sd, N):
         if k == "slice":
             return list(range(N))[slice(sd["a"], sd["b"], sd["c"])]
         if k == "mask":
-            if len(sd["m"]) != N:
+            if len(sd["m"]) != N and len(sd["m"]) != 0:     # numpy accepts an EMPTY boolean index for any N (selects nothing)
                 return None
             return [i for i, b in enumerate(sd["m"]) if b]
         out = []
